@@ -24,6 +24,7 @@ type n10ExpCase struct {
 	Kind    string `json:"kind"` // "expiry"
 	Real    bool   `json:"real,omitempty"`
 	E       int    `json:"e"`
+	EF      int    `json:"ef,omitempty"` // expiry flags of the replicated holds besides 0x0100: keep-alive 0x8000, minute 0x0040, log-error 0x0800, no-reset 0x2000
 	Keys    int    `json:"keys"`
 	Rc      int    `json:"rc"`      // re-entrant depth - 1
 	Advance int    `json:"advance"` // virtual seconds to run the follower's clock
@@ -62,7 +63,7 @@ func n10RunExpiry(c *n10ExpCase) (info n10ExpInfo, key string, err error, inconc
 	defer e.close()
 	for k := 0; k < c.Keys; k++ {
 		for d := 0; d <= c.Rc; d++ {
-			e.send(n09Op{K: "lock", Key: k, Id: 1, E: c.E, EF: 0x0100, Rc: c.Rc})
+			e.send(n09Op{K: "lock", Key: k, Id: 1, E: c.E, EF: 0x0100 | c.EF, Rc: c.Rc})
 		}
 	}
 	if k, viol, inc := e.syncAndCheck(false); inc != "" {
@@ -176,6 +177,16 @@ func TestC10_FollowerKeepsExpiredHold(t *testing.T) {
 	rapid.Check(t, func(t *rapid.T) {
 		c := &n10ExpCase{Kind: "expiry"}
 		c.E = rapid.IntRange(1, 3).Draw(t, "e")
+		// every expiry flag a log record preserves and a leader accepts for a hold that does expire: keep-alive (the
+		// follower has no client stream to keep it alive for), minute unit, log-error, no-reset-of-checked-count
+		for _, f := range []int{0x8000, 0x8000, 0x0040, 0x0800, 0x2000} {
+			if rapid.IntRange(0, 3).Draw(t, "flag") == 0 {
+				c.EF |= f
+			}
+		}
+		if c.EF&0x0040 != 0 {
+			c.E = 1 // one minute: deadline + 300 s stays inside the largest clock advance
+		}
 		c.Keys = rapid.IntRange(1, 3).Draw(t, "keys")
 		c.Rc = rapid.SampledFrom([]int{0, 0, 1, 2}).Draw(t, "rc")
 		c.Advance = rapid.SampledFrom([]int{5, 40, 290, 345, 420, 700}).Draw(t, "advance")
@@ -204,6 +215,9 @@ func TestC10_FollowerKeepsExpiredHold(t *testing.T) {
 		add(info.heldPast300, "hold still kept at deadline + 335 s")
 		add(info.droppedAfter300, "hold dropped by the follower after deadline + 300 s")
 		add(info.released, "leader's release applied after the stall")
+		add(c.EF&0x8000 != 0, "replicated hold carries the keep-alive flag")
+		add(c.EF&0x0040 != 0, "replicated hold with minute expiry")
+		add(c.EF&0x2800 != 0, "replicated hold with log-error / no-reset flag")
 		st.Case(info.heldPastDeadline, vHash(fmt.Sprintf("%+v", *c)), cls, func() interface{} { return c })
 		if err != nil && strings.HasPrefix(key, "C09:") {
 			fmt.Printf("VERIF-NOTE C10 expiry case ran into a C09 matter key=%s (judged by the C09 check)\n", key)
@@ -221,7 +235,7 @@ func TestC10_FollowerKeepsExpiredHoldReal(t *testing.T) {
 	st := vstat("TestC10_FollowerKeepsExpiredHoldReal")
 	n := vEnvInt("VERIF_C10_REAL_CASES", 2)
 	for i := 0; i < n; i++ {
-		c := &n10ExpCase{Kind: "expiry", Real: true, E: 1 + i%2, Keys: 1 + i%3, Rc: i % 2}
+		c := &n10ExpCase{Kind: "expiry", Real: true, E: 1 + i%2, Keys: 1 + i%3, Rc: i % 2, EF: []int{0x8000, 0, 0x8000 | 0x0800, 0x2000}[i%4]}
 		info, key, err, inc := n10RunExpiry(c)
 		if inc != "" {
 			n09Inconclusive("C10 expiry (real time): " + inc)
